@@ -124,6 +124,10 @@ example :
       [Layout.Field.guards, Layout.Field.verifiers, Layout.Field.lock] ⟨s, [(1, 0)], false⟩).ms.mem 100 = 2 := by
   decide
 
+/-- the model's state is complete for the back ends: `injector_core` declares no process-wide or
+    thread-local mutable state (regenerated from the source on every run) -/
+theorem C02_state_modelled : Generated.Layout.coreStatics = [] := by decide
+
 end Inj.Props
 
 #print axioms Inj.Props.C02_latest_wins
@@ -133,3 +137,4 @@ end Inj.Props
 #print axioms Inj.Props.C02_lifetimes
 #print axioms Inj.Props.C02_source_exit
 #print axioms Inj.Props.C02_any_exit
+#print axioms Inj.Props.C02_state_modelled
